@@ -846,19 +846,20 @@ int bufr_save_template( const char *filename, BUFR_Template *tmplt )
       fprintf( fp, "%d", code->descriptor );
       if ( code->values )
          {
-         if (code->nbval > 1)
-            fprintf( fp, ",VALUES=" );
-         else
-            fprintf( fp, ",VALUE=" );
+/*
+ * bufr_load_template() reads "VALUE=" followed by the values of one line, 
+ * separated by commas
+ */
+         fprintf( fp, ",VALUE=" );
          for (j = 0; j < code->nbval ; j++ )
             {
+            if (j > 0)
+               fprintf( fp, "," );
             errmsg[0] = '\0';
             if (bufr_print_value( errmsg, code->values[j] ))
                {
-               fprintf( fp, "%s\n", errmsg );
+               fprintf( fp, "%s", errmsg );
                }
-            if ((j > 0)&&((j+1) < code->nbval))
-               fprintf( fp, "," );
             }
          }
       fprintf( fp, "\n" );
